@@ -704,7 +704,7 @@ def random_oplists(pid, rng, n):
 
 SIZES = {
     "quick": {"hist": 100, "random": 60, "hazard": 40, "mc_timeout": 420, "tr_timeout": 900, "probe_cap": 20, "full_n": 4},
-    "thorough": {"hist": 1000, "random": 400, "hazard": 300, "mc_timeout": 3400, "tr_timeout": 3400, "probe_cap": 28, "full_n": 6},
+    "thorough": {"hist": 1000, "random": 400, "hazard": 300, "mc_timeout": 3400, "tr_timeout": 5400, "probe_cap": 28, "full_n": 6},
 }
 CMAPS = {"quick": ["ascii", "unicode", "obo", "dcolon", "case"], "thorough": ["ascii", "unicode", "obo", "dcolon", "tokens", "case"]}
 ASSUMPTIONS = [
@@ -914,6 +914,9 @@ def system_part(pid, tier, seed):
 def check(pid, tier, seed):
     t0 = time.time()
     sz = SIZES[tier]
+    if pid == "C08" and tier == "thorough":
+        # the whole mode matrix is logged for ten strings per probe table: 1000 + 400 + 300 behaviours took 57 minutes
+        sz = dict(sz, hist=600, random=250, hazard=200)
     rng = random.Random(seed * 7919 + int(pid[1:]))
     models, hists = [], []
     violations, known, lines = 0, [], []
